@@ -8,7 +8,7 @@ ID = 'C08'
 GENS = ['units', 'consts']
 TARGETS = ['BC.Props.C08']
 PROP_FILES = ['BC/Props/C08.lean', 'BC/Lemmas/Atmo.lean']
-THEOREMS = ['C08_unit_reads', 'C08_isa_temperature', 'C08_isa_exponent', 'C08_isa_pressure', 'C08_isa_sound', 'C08_dry_density',
+THEOREMS = ['C08_vacuum_stays_zero', 'C08_unit_reads', 'C08_isa_temperature', 'C08_isa_exponent', 'C08_isa_pressure', 'C08_isa_sound', 'C08_dry_density',
             'C08_standard_station', 'C08_extrapolation_law', 'C08_shortcut', 'C08_outside_shortcut', 'C08_pressure_base_clamped',
             'C08_vacuum_zero', 'C08_humidity', 'C08_density_falls_with_vapour_partial']
 STATEMENTS = {
@@ -24,6 +24,8 @@ STATEMENTS = {
     'C08_outside_shortcut': 'beyond 30 ft: density = station ratio * (T0 p(z))/(p0 T(z)), Mach 1 = 20.0467 sqrt(T(z)) m/s in fps, at EVERY altitude',
     'C08_pressure_base_clamped': 'the base of the pressure power law is >= 0 and the prediction always answers',
     'C08_vacuum_zero': 'Vacuum: density ratio = 0 at every altitude',
+    'C08_vacuum_stays_zero': 'the humidity setter (the only mutator of an atmosphere) leaves a vacuum\'s density ratio untouched (still 0 at every altitude); on an ordinary '
+                             'atmosphere it recomputes the density from the station values and changes nothing else',
     'C08_humidity': 'h < 0 or h > 100 rejected; 1 < h <= 100 means h/100; 0 <= h <= 1 taken as is',
     'C08_density_falls_with_vapour_partial': 'PARTIAL (Z and enhancement factor frozen): density decreases as the vapour mole fraction rises',
 }
@@ -54,6 +56,7 @@ def correspondence(chk, drv):
     rng = chk.rng
     n = 300 if chk.tier == 'quick' else 20000
     cn, cv, ca, cs, cd = Corr('atmo_new'), Corr('vacuum_new'), Corr('atmo_at'), Corr('atmo_std'), Corr('air_density')
+    ch = Corr('atmo_sethum')
     pairs = set()
     DU, PU, TU = [U.Foot, U.Meter, U.Yard], [U.hPa, U.InHg, U.MmHg, U.PSI, U.Bar], [U.Celsius, U.Fahrenheit, U.Kelvin, U.Rankin]
     for _ in range(n):
@@ -81,6 +84,16 @@ def correspondence(chk, drv):
             if abs(a0 - z) >= 30:
                 pairs.add((round(a0, 3), round(z, 3)))
         ca.add('atmo_at ' + sg.enc_atmo(a) + f' {len(zs)} ' + ' '.join(str(f2b(z)) for z in zs), ' '.join(outs))
+        # the humidity setter on an existing atmosphere (and on a vacuum)
+        for obj, vac in ((a, 'F'), (pbc.Vacuum(U.Foot(rng.uniform(0, 9000))), 'T')):
+            h2 = rng.choice([0, 0.0, 0.3, 1, 45, 100, -1, 100.5])
+            line = f'atmo_sethum {sg.enc_atmo(obj)} {vac} {f2b(float(h2))}'
+            try:
+                obj.humidity = h2
+                ans2 = 'ok ' + ' '.join('f' + x for x in sg.enc_atmo(obj).split())
+            except ValueError:
+                ans2 = 'err:humidity'
+            ch.add(line, ans2)
         st = U.Foot(rng.uniform(-1400, 40000))
         cs.add(f'atmo_std {f2b(st.raw_value)}', 'f%d f%d' % (f2b(pbc.Atmo.standard_temperature(st).raw_value),
                                                             f2b(pbc.Atmo.standard_pressure(st).raw_value)))
@@ -91,7 +104,7 @@ def correspondence(chk, drv):
             v = pbc.Vacuum(va, vt)
             cv.add(f'vacuum_new {f2b(0.0 if va is None else va.raw_value)} {"-" if vt is None else f2b(vt.raw_value)}',
                    'ok ' + ' '.join('f' + x for x in sg.enc_atmo(v).split()))
-    for c in (cn, cv, ca, cs, cd):
+    for c in (cn, cv, ca, cs, cd, ch):
         r = c.finish(drv)
         chk.corr.append(r)
         chk.oblige(f'corr:{c.op}', 'correspondence', r['mismatch'] == 0,
@@ -164,6 +177,22 @@ def search(chk, broken):
         v = pbc.Vacuum(U.Foot(rng.uniform(0, 9000)))
         if any(v.get_density_factor_and_mach_for_altitude(zz)[0] != 0 for zz in (0.0, z, z2, 1e5)):
             chk.failures.append(Failure('vacuum', 'vacuum density not zero', {'op': 'vacuum'}))
+        # ... and stays zero whatever is done to it afterwards (humidity is the only thing a user can assign)
+        for hv in (0, 0.5, 50, 100):
+            v.humidity = hv
+        try:
+            v.humidity = 101
+        except ValueError:
+            pass
+        if v.density_ratio != 0 or any(v.get_density_factor_and_mach_for_altitude(zz)[0] != 0 for zz in (0.0, z, z2, 1e5)):
+            chk.failures.append(Failure('vacuum-after-humidity', f'a vacuum has density ratio {v.density_ratio} after its humidity was assigned',
+                                        {'op': 'vacuum-humidity', 'python': 'from py_ballisticcalc import *; v=Vacuum(); v.humidity=0; v.density_ratio'}))
+        # an ordinary atmosphere after a humidity assignment equals one constructed with that humidity
+        a1 = pbc.Atmo(U.Foot(z), U.hPa(pr), U.Celsius(t), 0)
+        a1.humidity = h
+        a2 = pbc.Atmo(U.Foot(z), U.hPa(pr), U.Celsius(t), h)
+        if a1.density_ratio != a2.density_ratio:
+            chk.failures.append(Failure('humidity-setter', 'density after assigning humidity differs from construction with it', {'op': 'hum-setter', 'h': h}))
     for bad in (-0.001, 100.001, 1000):
         if chk.over():
             break
